@@ -42,10 +42,14 @@ class TocRenderer(HtmlRenderer):
 
         def build_list_item(heading):
             level, content = heading
-            template = '{indent}- {content}\n'
-            return template.format(indent=get_indent(level), content=content)
+            indent = get_indent(level)
+            # a heading may span several lines: the following ones continue the item's paragraph
+            first_line, *more_lines = content.split('\n')
+            yield '{indent}- {content}\n'.format(indent=indent, content=first_line)
+            for line in more_lines:
+                yield '{indent}  {content}\n'.format(indent=indent, content=line)
 
-        lines = [build_list_item(heading) for heading in self._headings]
+        lines = [line for heading in self._headings for line in build_list_item(heading)]
         items = block_token.tokenize(lines)
         return items[0]
 
